@@ -102,7 +102,10 @@ def two_field_paths() -> list[tuple[list[tuple], bool]]:
     return out
 
 
-def make_harness(paths: list[tuple[list[tuple], bool]], trees: list[Any] | None = None):
+REJECTED_DEFINITIONS = ["//", "//NoSuchClassAnywhere", "NoSuchClassAnywhere", "/VLeaf//", "/@items[", "//@items[0]NoSuchClassAnywhere/", "/VLeaf/[x]"]
+
+
+def make_harness(paths: list[tuple[list[tuple], bool]], trees: list[Any] | None = None, after_rejected: bool = False):
     TREES = trees if trees is not None else globals()["TREES"]  # noqa: N806
 
     def harness(e):
@@ -117,8 +120,23 @@ def make_harness(paths: list[tuple[list[tuple], bool]], trees: list[Any] | None 
         recipe = TREES[tno]
         root = build(recipe)
         chains = XR.chains(recipe, root)
+        rejected_first = None
+        if after_rejected:
+            # a definition that is rejected (syntax error / unknown class, before or after a '//') is
+            # compiled immediately before: the meaning of the next definition must not depend on it
+            from pyoak.match.error import ASTXpathDefinitionError
+
+            rejected_first = e.pick(REJECTED_DEFINITIONS, "rejected_definition_first")
+            via = e.pick(["ASTXpath", "find"], "rejected_through")
+            try:
+                ASTXpath(rejected_first) if via == "ASTXpath" else root.find(rejected_first)
+                e.assume(False)  # accepted after all: not the prehistory meant here
+            except ASTXpathDefinitionError:
+                pass
         xp = ASTXpath(text)
         scenario: dict[str, Any] = {"xpath": text, "tree": describe(recipe)}
+        if rejected_first is not None:
+            scenario["rejected_definition_first"] = rejected_first
         found = list(xp.findall(root))
         want = [ch[-1][0] for ch in chains if XR.matches(steps, relative, ch, CLASSES)]
         tree = Tree(root)
@@ -232,6 +250,9 @@ def spec(tier: str, seed: int) -> Spec:
     paths = path_space(tier)
     chunk = max(1, len(paths) // 64)
     fams = [Family(f"xpaths[{k}:{k + chunk}]", make_harness(paths[k : k + chunk]), variables="selectors: xpath derivation, tree") for k in range(0, len(paths), chunk)]
+    rp = paths[:: (29 if tier == "quick" else 9)]
+    rch = max(1, len(rp) // 8)
+    fams += [Family(f"after-a-rejected-definition[{k}:{k + rch}]", make_harness(rp[k : k + rch], after_rejected=True), variables="selectors: rejected definition compiled first (7 texts x 2 entry points), xpath derivation, tree") for k in range(0, len(rp), rch)]
     fams.append(Family("two-sequence-fields", make_harness(two_field_paths(), two_field_trees()), variables="selectors: xpath (index with and without a field name), tree"))
     fams.append(Family("slotted-classes", make_harness(SLOTTED_PATHS, slotted_trees()), variables="selectors: xpath, tree (classes created with slots=True)"))
     return Spec(
